@@ -41,10 +41,11 @@ Definition match_pats (ps : list pat) (ts : toks) : res toks :=
   if peek_pats ps ts then Ok (skipn (List.length ps) ts) else Err ParseErr.
 Definition pop (ts : toks) : res (tok * toks) := match ts with t :: r => Ok (t, r) | [] => Err ParseErr end.
 Definition pop_src (ts : toks) : res (str * toks) := match ts with t :: r => Ok (source t, r) | [] => Err ParseErr end.
-Definition pop_children (ts : toks) : res (toks * toks) := match ts with t :: r => Ok (tok_children t, r) | [] => Err ParseErr end.
+Definition pop_children (ts : toks) : res (toks * toks) :=
+  match ts with t :: r => if is_group t then Ok (tok_children t, r) else Err ParseErr | [] => Err ParseErr end.
 Definition peek_children (ts : toks) : res toks := match ts with t :: _ => Ok (tok_children t) | [] => Err ParseErr end.
 Definition pop_split (s : str) (ts : toks) : res (list toks * toks) :=
-  match ts with t :: r => Ok (split_by (tok_children t) s [], r) | [] => Err ParseErr end.
+  match ts with t :: r => if is_group t then Ok (split_by (tok_children t) s [], r) else Err ParseErr | [] => Err ParseErr end.
 Definition close (ts : toks) : res unit := match ts with [] => Ok tt | _ => Err ParseErr end.
 
 (* ---------- strings ---------- *)
